@@ -44,7 +44,7 @@ func (*c15) ID() string                     { return "C15" }
 func (*c15) Level() string                  { return "fault_enumeration" }
 func (*c15) Decode(raw []byte) (any, error) { return decodeInto[C15Scenario](raw) }
 
-var c15Alphabet = []string{"first-ok", "first-foreign", "first-trunc", "first-malformed", "first-iter0", "final-ok", "final-prev", "final-other", "final-empty", "final-zerokey", "final-blank", "empty", "junk", "235", "535"}
+var c15Alphabet = []string{"first-ok", "first-foreign", "first-trunc", "first-malformed", "first-iter0", "final-ok", "final-prev", "final-other", "final-empty", "final-zerokey", "final-blank", "empty", "junk", "235", "535", "hangup"}
 
 type c15Variant struct{ mech, tls, via string }
 
@@ -89,10 +89,10 @@ func (p *c15) Gen(seed uint64, i int, tier string) (any, bool) {
 	if v >= len(variants) {
 		return nil, false
 	}
-	// sequences that continue after a final reply (235/535) are the same path as their prefix
+	// sequences that continue after a final reply (235/535) or a hang-up are the same path as their prefix
 	sc := &C15Scenario{Mech: variants[v].mech, TLSVer: variants[v].tls, Via: variants[v].via, Script: c15Unrank(i%per, depth), Sched: sim.Derive(seed, 15, uint64(i))}
 	for k, s := range sc.Script[:len(sc.Script)-1] {
-		if s == "235" || s == "535" {
+		if s == "235" || s == "535" || s == "hangup" {
 			_ = k
 			return &C15Scenario{Mech: sc.Mech, TLSVer: sc.TLSVer, Via: sc.Via, Script: nil, Sched: sc.Sched}, true
 		}
